@@ -32,7 +32,7 @@ func run(cfg lib.Cfg) error {
 		}
 	}
 	r := lib.NewRNG(cfg.Seed)
-	n := 420
+	n := 320
 	if cfg.Thorough() {
 		n = 4000
 	}
@@ -54,5 +54,13 @@ func run(cfg lib.Cfg) error {
 		}
 	}
 	rows.DistNotes(out)
+	// quick: one shard per core of the 16; thorough: 60 cases per shard
+	out.PerShard = 60
+	if !cfg.Thorough() {
+		out.PerShard = (len(out.Cases) + 15) / 16
+		if out.PerShard < 20 {
+			out.PerShard = 20
+		}
+	}
 	return out.Flush()
 }
